@@ -167,10 +167,11 @@ def check_header(ctx, label, sms, d, vars_):
     for attr, tag in pairs.items():
         if tag in h:
             ctx.check("%s.header[%s]" % (label, tag), getattr(sms, attr) == h[tag], note="%r vs %r" % (getattr(sms, attr), h[tag]))
-    ctx.check(label + ".header[#OFFSET]", ctx.eq(sms.offset, d["offset_ms"]))
+    # (these pass through the double constants 1000.0 and 1/1000.0: compared up to 1e-9 relative, DESIGN appendix A)
+    ctx.check(label + ".header[#OFFSET]", ctx.close(sms.offset, d["offset_ms"]))
     if "#SAMPLESTART" in h:
-        ctx.check(label + ".header[#SAMPLESTART]", ctx.eq(sms.sample_start, 1000 * h["#SAMPLESTART"]))
-        ctx.check(label + ".header[#SAMPLELENGTH]", ctx.eq(sms.sample_length, 1000 * h["#SAMPLELENGTH"]))
+        ctx.check(label + ".header[#SAMPLESTART]", ctx.close(sms.sample_start, 1000 * h["#SAMPLESTART"]))
+        ctx.check(label + ".header[#SAMPLELENGTH]", ctx.close(sms.sample_length, 1000 * h["#SAMPLELENGTH"]))
     if "#SELECTABLE" in h:
         ctx.check(label + ".header[#SELECTABLE]", sms.selectable == (h["#SELECTABLE"] == "YES"))
 
